@@ -65,24 +65,43 @@ def gen(rng, tier):
             region.append([start, stop, None])
         pairs.append({"src": v, "tshape": tshape, "region": region})
     lock = rng.choice([True, False, "L0", "L0"])
+    shared = None
+    if mode == "store" and rng.random() < 0.2:
+        # several pairs write disjoint regions of ONE target whose writes are read-modify-write of storage
+        # blocks that straddle the regions (a compressed-chunk store): correct only if all writers of the
+        # target exclude each other, i.e. hold the same lock
+        v = rng.choice(cands)
+        X = ctx.env.vars[v]
+        shape = [int(s_) for s_ in X.shape]
+        kk = rng.choice([2, 2, 3])
+        off = rng.randint(0, 2)
+        tshape = [off + kk * shape[0] + rng.randint(0, 2)] + [n + rng.randint(0, 1) for n in shape[1:]]
+        pairs = []
+        for j in range(kk):
+            region = [[off + j * shape[0], off + (j + 1) * shape[0], None]] + [[0, n, None] for n in shape[1:]]
+            pairs.append({"src": v, "tshape": tshape, "region": region})
+        shared = {"rmw": [max(2, shape[0] + rng.choice([-1, 1, 2]))] + [max(1, n) for n in tshape[1:]]}
+        tkind = "sim"
+        lock = rng.choice([True, True, "L0"])
     scheds = [{"policy": "fifo", "sseed": 0, "release": False}]
     for _ in range(2 if tier == "quick" else 5):
         scheds.append({"policy": rng.choice(POLICIES), "sseed": rng.getrandbits(32), "release": rng.random() < 0.5})
     # line-granular interleaving of 2-3 in-flight store tasks contending for the lock (baton-passed
     # threads).  Real locks (lock=True here or on a source) would really block, so those stay atomic.
-    true_lock = lock is True or any(s_["op"] == "from_array" and s_["args"].get("lock") is True for s_ in recipe["steps"])
-    if mode == "store" and not true_lock and (isinstance(lock, str) or rng.random() < 0.3):
-        for _ in range(1 if tier == "quick" else 3):
+    # (lock=True on the store itself is fine: the harness owns the seam that makes that lock)
+    true_lock = any(s_["op"] == "from_array" and s_["args"].get("lock") is True for s_ in recipe["steps"])
+    if mode == "store" and not true_lock and (isinstance(lock, str) or shared or rng.random() < 0.3):
+        for _ in range((1 if tier == "quick" else 3) + (2 if shared else 0)):
             scheds.append({"policy": "preempt", "inflight": rng.choice([2, 3]), "yield_p": rng.choice([0.1, 0.3, 0.6]),
                            "sseed": rng.getrandbits(32), "release": False})
-    return {"recipe": recipe, "pairs": pairs, "lock": lock, "mode": mode, "axis": rng.randrange(8), "tkind": tkind,
+    return {"recipe": recipe, "pairs": pairs, "lock": lock, "mode": mode, "shared": shared, "axis": rng.randrange(8), "tkind": tkind,
             "compute": rng.random() < 0.7, "return_stored": rng.random() < 0.3, "schedules": scheds,
             "fault_positions": "all" if tier == "thorough" else 3, "fseed": rng.getrandbits(32)}
 
 
 def shape_of(case, stats):
     return [[s["op"] for s in case["recipe"]["steps"]], [(p["tshape"], str(p["region"])) for p in case["pairs"]],
-            case.get("tkind"), case["lock"], case["mode"], case["compute"], case["return_stored"], stats.get("writes")]
+            case.get("tkind"), bool(case.get("shared")), case["lock"], case["mode"], case["compute"], case["return_stored"], stats.get("writes")]
 
 
 def nontrivial(case, stats):
@@ -124,9 +143,35 @@ def execute(case, stats, log):
         return run_npy(case, env, xs[0], vals[0], stats, log)
     lock = env.lock(case["lock"]) if isinstance(case["lock"], str) else case["lock"]
     obs_lock = lock if isinstance(lock, fakes.SimLock) else None
+    shared = case.get("shared")
+    import dask_array.io._store as _st
+
+    # seam: the lock store() makes for lock=True comes from this module attribute (looked up at call time)
+    real_gsl = _st.get_scheduler_lock
+    nauto = [0]
+
+    def sim_scheduler_lock(collection=None, scheduler=None):
+        nauto[0] += 1
+        stats["probe.auto_locks"] = stats.get("probe.auto_locks", 0) + 1
+        return fakes.new_lock(f"auto{nauto[0]}")
+
+    _st.get_scheduler_lock = sim_scheduler_lock
+    try:
+        return _execute_store(case, stats, log, env, xs, vals, lock, obs_lock, shared)
+    finally:
+        _st.get_scheduler_lock = real_gsl
+
+
+def _execute_store(case, stats, log, env, xs, vals, lock, obs_lock, shared):
+    import dask
+    import dask_array as da
 
     def make_targets():
         ts = []
+        if shared:
+            p, x = case["pairs"][0], xs[0]
+            t = fakes.SimTarget(p["tshape"], x.dtype, SENTINEL[x.dtype.kind], name="t0", lock=obs_lock, rmw=shared["rmw"])
+            return [t] * len(case["pairs"])
         for p, x in zip(case["pairs"], xs):
             mk = fakes.NDTarget.make if case.get("tkind") == "nd" else fakes.SimTarget
             ts.append(mk(p["tshape"], x.dtype, SENTINEL[x.dtype.kind], name=f"t{len(ts)}", lock=obs_lock))
@@ -134,6 +179,15 @@ def execute(case, stats, log):
 
     def models(ts):
         out = []
+        if shared:
+            t = ts[0]
+            m = np.full(case["pairs"][0]["tshape"], SENTINEL[t.dtype.kind], dtype=t.dtype)
+            cnt = np.zeros(case["pairs"][0]["tshape"], dtype=np.int64)
+            for p, v in zip(case["pairs"], vals):
+                reg = _region_tuple(p["region"])
+                m[reg] = v
+                cnt[reg] += 1
+            return [(m, cnt)] * len(ts)
         for p, t, v in zip(case["pairs"], ts, vals):
             m = np.full(p["tshape"], SENTINEL[t.dtype.kind], dtype=t.dtype)
             cnt = np.zeros(p["tshape"], dtype=np.int64)
@@ -228,7 +282,7 @@ def execute(case, stats, log):
             stats["writes"] = sum(nwrites)
         log.append(["store", si, sched["policy"], [fp(t._a) for t in ts]])
     # write faults
-    positions = [(ti, k) for ti, n in enumerate(nwrites) for k in range(n)]
+    positions = [(ti, k) for ti, n in enumerate(nwrites[:1] if shared else nwrites) for k in range(n)]
     frng = random.Random(case["fseed"])
     if case["fault_positions"] != "all" and len(positions) > case["fault_positions"]:
         positions = frng.sample(positions, case["fault_positions"])
